@@ -26,7 +26,7 @@ try:
             print('ERROR: old text occurs %d times in %s'%(s.count(old),f)); sys.exit(1)
         open(p,'w').write(s.replace(old,new))
     diff=subprocess.check_output(['git','diff'],cwd=d).decode()
-    out='/verif/mutants/%s.patch'%name
+    out=('/verif/benign/%s.patch' if props=='BENIGN' else '/verif/mutants/%s.patch')%name
     open(out,'w').write('# breaks: %s\n# note: %s\n'%(props,note)+diff)
     print('wrote',out)
 finally:
